@@ -60,7 +60,7 @@ def _depth(prog):
     d, created = {}, 0
     best = 0
     for s in prog:
-        if s["s"] in ("new", "select", "alias", "add_scalar", "add_arrays", "concat", "concat1", "sort", "cumsum", "diff"):
+        if s["s"] in ("new", "select", "alias", "add_scalar", "add_arrays", "concat", "concat1", "astype", "sort", "cumsum", "diff"):
             d[created] = (d.get(s.get("x"), 0) + 1) if s["s"] == "select" else 0
             best = max(best, d[created]); created += 1
     return best
@@ -89,9 +89,11 @@ def lean_prog(prog):
     to the Lean machines as the observationally identical selection of all rows `x[:]`"""
     out = []
     for st in prog:
-        if st["s"] == "read_meta":     # len / size / lengths are functions of the rows: the model is asked for the rows
+        if st["s"] in ("read_meta", "read_col"):     # len / size / lengths / a column are functions of the rows: the model is asked for the rows
             out.append({"s": "read", "x": st["x"]})
-        elif st["s"] == "concat1":
+        elif st["s"] == "fill":           # x.fill(v) = x[...] = v
+            out.append({"s": "assign", "x": st["x"], "idx": {"r": {"t": "all"}, "c": None}, "val": {"t": "scalar", "v": st["v"]}})
+        elif st["s"] in ("concat1", "astype"):
             out.append({"s": "select", "x": st["x"], "idx": {"r": {"t": "slice", "a": None, "b": None, "k": None}, "c": None}})
         else:
             out.append(st)
@@ -110,6 +112,8 @@ def _conv_obs(st, j):
         return [j["t"], j["v"]]
     if s == "read_meta" and isinstance(j, list):
         return [len(j), sum(len(r) for r in j), [len(r) for r in j]]
+    if s == "read_col" and isinstance(j, list):
+        return [r[st["j"]] for r in j if len(r) > st["j"]]
     return j
 
 
